@@ -149,6 +149,7 @@ func certRun(args []string) error {
 	own("bytes key", &cnode{mt: 4, kids: []*cnode{magic, {mt: 5, kids: []*cnode{bs([]byte("cert")), bs(der), tx("ocsp"), bs([]byte("o"))}}}})
 	own("text value", &cnode{mt: 4, kids: []*cnode{magic, {mt: 5, kids: []*cnode{tx("cert"), bs(der), tx("ocsp"), tx("o")}}}})
 	// SCT lists
+	var late []func()
 	sctCase := func(lens []int) {
 		id++
 		var scts [][]byte
@@ -159,7 +160,12 @@ func certRun(args []string) error {
 			js = append(js, ints(b))
 		}
 		out, err := certurl.SerializeSCTList(scts)
-		emit(map[string]interface{}{"case": "sct" + strconv.Itoa(id), "kind": "sct", "scts": js, "err": err != nil, "out": ints(out)})
+		// observed LATE: the returned slice is kept as returned and looked at only after all later calls (a result must
+		// not be backed by storage that a later call reuses)
+		cid := "sct" + strconv.Itoa(id)
+		late = append(late, func() {
+			emit(map[string]interface{}{"case": cid, "kind": "sct", "scts": js, "err": err != nil, "out": ints(out)})
+		})
 	}
 	sctCase([]int{})
 	for _, a := range []int{0, 1, 100} {
@@ -171,6 +177,13 @@ func certRun(args []string) error {
 	}
 	for _, l := range [][]int{{65533}, {65534}, {65535}, {65536}, {65531, 0}, {65530, 1}, {65531, 1}, {32766, 32765}, {32766, 32766}, {30000, 30000, 5529}, {30000, 30000, 5530}, {70000}, {1, 70000}} {
 		sctCase(l)
+	}
+	// decreasing sizes (a later, shorter result fits into whatever an earlier one used)
+	for _, l := range [][]int{{300, 20}, {100}, {40, 1}, {7}, {}} {
+		sctCase(l)
+	}
+	for _, f := range late {
+		f()
 	}
 	return nil
 }
